@@ -165,6 +165,9 @@ def run(env, cfg, what, ident, build, poison, seed=b"", timeout=None, prev=None)
     previous polynomial must not survive the switch); the next case then gets a fresh runner process."""
     p = Prog(poison=poison, seed=seed)
     if prev is not None and what == "fb" and prev != ident:
+        # in a process of its own, so that the history is exactly (prev, ident) whatever ran before - also in a replay,
+        # where the discovery of the field context has just installed ident
+        env.runner(cfg).ncases = env.runner(cfg).recycle
         p.call("fb_param_set", prev)
         p.call("fb_param_set", ident)
         skip = 2
